@@ -397,7 +397,9 @@ impl<'text> std::iter::FusedIterator for SplitLines<'text> {}
 
 impl<'text> ExactSizeIterator for SplitLines<'text> {
     fn len(&self) -> usize {
-         self.end.page.line - self.start.page.line
+        // One piece per line from the current start line to the end line,
+        // inclusive; zero once the start has moved past the end line.
+        (self.end.page.line + 1).saturating_sub(self.start.page.line)
     }
 }
 
